@@ -6,6 +6,7 @@
    Order relations are written Z.le (independent of the bind notations of Model.Passes). *)
 From Coq Require Import ZArith List String Ascii.
 From BB Require Import Base.PyBase Model.Items Model.Lexer Model.Passes Proofs.LexSep Proofs.LexFront Proofs.LexConst.
+From BB Require Model.Items Model.Passes Proofs.Subst.
 Import ListNotations.
 Open Scope Z_scope.
 Open Scope list_scope.
@@ -63,3 +64,19 @@ Print Assumptions C11_char_former_exceptions.
 Theorem C11_char_backslash : const_value_of_line (chars "X = " ++ [c_quote; c_bsl; c_bsl; c_quote]) = Some 92.
 Proof. exact char_backslash_escaped. Qed.
 Print Assumptions C11_char_backslash.
+
+(* substitution: writing the VALUE of a constant instead of its name inside integer expressions -- immediates, li operands,
+   data values, the arguments of %hi / %lo / %position -- gives the SAME result of the whole pipeline (chunks, labels,
+   constants, or the same error), with compression off and on.  [cs] = the constants the run computes (resolve_constants
+   runs first over the whole program, so a use may even precede the definition); [lssub cs its its'] = its' is its with some
+   names c replaced by numerals v where cs c = v.  (Register-like sites -- aliases, shift amounts -- go through
+   resolve_register_aliases / lookup_register instead: C13_register_spelling; they are exercised by the falsifier.) *)
+Theorem C11_subst : forall its its' c0 l0 compress i1 cs,
+  Passes.resolve_constants_lr its c0 [] = Passes.Done (i1, cs) -> Subst.lssub cs its its' ->
+  Passes.assemble_items its' c0 l0 compress = Passes.assemble_items its c0 l0 compress.
+Proof. exact Subst.assemble_subst. Qed.
+Print Assumptions C11_subst.
+Example C11_subst_example :
+  (exists i1, Passes.resolve_constants_lr (Subst.exs_its (Items.AName "K")) [] [] = Passes.Done (i1, [("K"%string, 4%Z)])) /\
+  Subst.lssub [("K"%string, 4%Z)] (Subst.exs_its (Items.AName "K")) (Subst.exs_its (Items.ANum 4)).
+Proof. exact (conj Subst.exs_consts Subst.exs_related). Qed.
